@@ -116,11 +116,58 @@ theorem value_cap (feeOn : Bool) (s : St) (t : Txn) (r : CResult) (h : t.value >
     step feeOn s t r = (s, .rejected) := by
   unfold step; simp [h]
 
+/-! ### histories: rejected transactions are invisible -/
+
+/-- the sub-history of transactions that were applied (status `success` or `failed`), each judged in the state
+it met. -/
+def appliedOnly (feeOn : Bool) (s : St) : List (Txn × CResult) → List (Txn × CResult)
+  | [] => []
+  | (t, r) :: rest =>
+    if (step feeOn s t r).2 = .rejected then appliedOnly feeOn s rest
+    else (t, r) :: appliedOnly feeOn (step feeOn s t r).1 rest
+
+/-- **rejected_invisible**: any history ends in exactly the state reached by its applied transactions alone —
+rejected submissions (wrong nonce, over-cap value, a transfer failing at any queue position, an internal contract
+failure) interleaved anywhere, in any number, leave no trace in any balance, nonce or storage cell. -/
+theorem rejected_invisible (feeOn : Bool) (hist : List (Txn × CResult)) : ∀ s : St,
+    run feeOn s hist = run feeOn s (appliedOnly feeOn s hist) := by
+  induction hist with
+  | nil => intro s; rfl
+  | cons x rest ih =>
+    intro s
+    obtain ⟨t, r⟩ := x
+    by_cases h : (step feeOn s t r).2 = .rejected
+    · have hs := rejected_unchanged feeOn s t r h
+      show run feeOn (step feeOn s t r).1 rest = run feeOn s (appliedOnly feeOn s ((t, r) :: rest))
+      rw [hs]
+      simp only [appliedOnly, h, if_true]
+      exact ih s
+    · show run feeOn (step feeOn s t r).1 rest = run feeOn s (appliedOnly feeOn s ((t, r) :: rest))
+      simp only [appliedOnly, h, if_false]
+      show _ = run feeOn (step feeOn s t r).1 (appliedOnly feeOn (step feeOn s t r).1 rest)
+      exact ih _
+
+/-- every transaction of the applied sub-history is again applied when replayed alone (nothing of it is rejected). -/
+theorem appliedOnly_all_applied (feeOn : Bool) (hist : List (Txn × CResult)) : ∀ s : St,
+    appliedOnly feeOn s (appliedOnly feeOn s hist) = appliedOnly feeOn s hist := by
+  induction hist with
+  | nil => intro s; rfl
+  | cons x rest ih =>
+    intro s
+    obtain ⟨t, r⟩ := x
+    by_cases h : (step feeOn s t r).2 = .rejected
+    · simp only [appliedOnly, h, if_true]; exact ih s
+    · simp only [appliedOnly, h, if_false]; rw [ih]
+
 -- non-vacuity: a queue whose THIRD transfer overdraws is rejected although two succeeded
 def exS5 : St := { accts := [(3, ⟨1000, 4⟩), (7, ⟨50, 0⟩)], store := [(1, 1)] }
 def exT5 : Txn := { sender := 3, to := 7, toValid := true, value := 100, fee := 10, nonce := 5, typ := .sc }
 example : step true exS5 exT5 (.ok [.put 1 2] [⟨3, 7, 100, true, false⟩, ⟨7, 9, 40, true, false⟩, ⟨9, 3, 41, true, false⟩] []) = (exS5, .rejected) := by decide
 example : (step true exS5 exT5 (.ok [.put 1 2] [⟨3, 7, 100, true, false⟩, ⟨7, 9, 40, true, false⟩, ⟨9, 3, 40, true, false⟩] [])).2 = .success := by decide
 example : InRange exS5.accts := by intro p hp; simp [exS5] at hp; rcases hp with rfl | rfl <;> simp [u64]
+
+-- non-vacuity: a rejected overdraw between two applied transactions is dropped from the applied sub-history
+example : (appliedOnly true exS5 [(exT5, .ok [] [] []), ({ exT5 with nonce := 6 }, .ok [] [⟨7, 9, 4000, true, false⟩] []),
+    ({ exT5 with nonce := 6 }, .chargeable [] [] [])]).map (·.1.nonce) = [5, 6] := by decide
 
 end ZChain.Ledger
